@@ -360,6 +360,10 @@ func describeObl(o *Obligation) string {
 func (x *Exec) checkExits(c *Contract, o *State, how string) {
 	save := x.saveContractCtx()
 	defer x.restoreContractCtx(save)
+	o.names["panicking"] = boolLit(how == "panic")
+	if _, ok := o.names["recoverResult"]; !ok {
+		o.names["recoverResult"] = intLit(0)
+	}
 	for i, en := range c.Exits {
 		lab := en.Label
 		if lab == "" {
